@@ -12,9 +12,10 @@ from ..common import STORE_ALGOS, restore, snapshot
 from ..par import pmap
 
 NS = "https://ns.dataone.org/service/types/v2.0#SystemMetadata"
-OBJ = ("line %04d of an ascii object\n" * 60 % tuple(range(60))).encode()
+OBJ = "caf\u00e9 \u6f22 first line\r\nold-mac\rline\r".encode("utf-8") + \
+    ("line %04d of an object with CRLF endings\r\n" * 60 % tuple(range(60))).encode("ascii")
 OBJ2 = b"another ascii object\n"
-DOC = b"<metadata>one</metadata>\n"
+DOC = "<metadata>one\r\n\u00e9</metadata>\r".encode("utf-8")
 DOC2 = b"<metadata>two, a longer one</metadata>\n"
 ARGERR = {"ValueError", "TypeError", "UnsupportedAlgorithm"}
 PIDS = ("held", "new", "unknown", "rotten")
